@@ -2,6 +2,7 @@
 from ..paths import PathEnumerator
 from ..guards import fv
 from ..terms import TermBuilder, fmt, mk, const, subterms, elem_of
+from ..terms import callee_is as _nm
 from ..guards import atomic_facts
 from .common import SELF, self_field
 
@@ -137,7 +138,7 @@ def _rest(ctx, pw, selfp):
         if f is None:
             continue
         r = TermBuilder(f, prog).return_term()
-        okr = r[0] == "call" and r[1].endswith("Iterator::sum") and r[2][0][0] == "map" and r[2][0][1] == cents and elem_of(("map", ("dummy",), r[2][0][2])) == ("field", x, fld)
+        okr = r[0] == "call" and _nm(r[1], "Iterator::sum") and r[2][0][0] == "map" and r[2][0][1] == cents and elem_of(("map", ("dummy",), r[2][0][2])) == ("field", x, fld)
         ctx.check(okr, "R16-reads", f.key, f, "%s() sums c.%s over centroids" % (nm, fld), "%s() is %s" % (nm, fmt(r)))
     ie = ctx.anchor(TI + "::is_empty")
     if ie is not None:
@@ -216,15 +217,15 @@ def conservation(ctx, mg):
     probs = []
     X1 = None
     rest_of_buffer = it is not None and it[0] == "call" and (
-        (it[1].endswith("Vec::drain") and it[2][1] == ("adt", "std::ops::RangeFrom", "RangeFrom", (("start", const(1)),)))
-        or (it[1].endswith("Iterator::skip") and len(it[2]) == 2 and it[2][1] == const(1)))     # buffer.into_iter().skip(1)
+        (_nm(it[1], "Vec::drain") and it[2][1] == ("adt", "std::ops::RangeFrom", "RangeFrom", (("start", const(1)),)))
+        or (_nm(it[1], "Iterator::skip") and len(it[2]) == 2 and it[2][1] == const(1)))     # buffer.into_iter().skip(1)
     took_first = it is not None and it[0] == "rest"      # `let mut rest = buffer.into_iter(); let first = rest.next()..; loop over rest`
     if not rest_of_buffer and not took_first:
         probs.append("the fuse loop does not run over buffer.drain(1..) / buffer.into_iter().skip(1): %s" % (fmt(it)[:160] if it else "?"))
     else:
         X1 = it[1] if took_first else it[2][0]
         # the projected buffer: materialised (`.map(|t| t.1).collect()`) or a lazy iterator over the sorted pairs (`.into_iter().map(|t| t.1)`)
-        M1 = X1[2][0] if (X1[0] == "call" and X1[1].endswith("collect") and X1[2][0][0] == "map") else (X1 if X1[0] == "map" else None)
+        M1 = X1[2][0] if (X1[0] == "call" and _nm(X1[1], "collect") and X1[2][0][0] == "map") else (X1 if X1[0] == "map" else None)
         okx = M1 is not None
         if okx:
             src = M1[1]
@@ -232,8 +233,8 @@ def conservation(ctx, mg):
             okx = proj == ("tfield", ("elem", ("dummy",)), 1)
             if okx:
                 # the first buffer is consumed either by drain(..) or by into_iter()
-                X0 = src[2][0] if (src[0] == "call" and src[1].endswith("Vec::drain") and src[2][1] == full) else src
-                okx = X0[0] == "call" and X0[1].endswith("collect") and X0[2][0][0] == "map" and X0[2][0][1][0] == "chain" and {repr(X0[2][0][1][1]), repr(X0[2][0][1][2])} == {repr(d_c), repr(d_b)}
+                X0 = src[2][0] if (src[0] == "call" and _nm(src[1], "Vec::drain") and src[2][1] == full) else src
+                okx = X0[0] == "call" and _nm(X0[1], "collect") and X0[2][0][0] == "map" and X0[2][0][1][0] == "chain" and {repr(X0[2][0][1][1]), repr(X0[2][0][1][2])} == {repr(d_c), repr(d_b)}
                 if okx:
                     pair = elem_of(("map", ("dummy",), X0[2][0][2]))
                     e = ("elem", ("dummy",))
